@@ -24,8 +24,11 @@ type c15Step struct {
 	Entry string `json:"entry,omitempty"`
 }
 
-var c15Files = []string{"page.vuego", "comp.vuego", "layouts/main.vuego"}
-var c15Entries = []string{"template-render", "render-file", "vue-render", "vue-fragment"}
+var c15Files = []string{"page.vuego", "comp.vuego", "layouts/main.vuego", "layouts/base.vuego", "pages/post.vuego", "layouts/post.vuego"}
+
+// entry@file: which call renders which page. plain.vuego names no layout (default layouts/base.vuego when it exists); pages/p.vuego names
+// "post", which resolves next to the page first (pages/post.vuego) and in layouts/ otherwise. Both pages are never edited themselves.
+var c15Entries = []string{"template-render", "render-file", "vue-render", "vue-fragment", "template-render@plain.vuego", "render-file@pages/p.vuego"}
 
 // front-matter and body carry separate version numbers: an edit may change either part alone
 func c15Content(file string, fmv, version int) string {
@@ -34,6 +37,8 @@ func c15Content(file string, fmv, version int) string {
 		return fmt.Sprintf("---\nlayout: main\ntitle: T%d\n---\n<h1>page v%d {{ title }}</h1><template include=\"comp.vuego\"></template>", fmv, version)
 	case "comp.vuego":
 		return fmt.Sprintf("---\ncv: C%d\n---\n<i>comp v%d {{ cv }}</i>", fmv, version)
+	case "layouts/base.vuego", "pages/post.vuego", "layouts/post.vuego":
+		return fmt.Sprintf("<section data-file=\"%s\" data-l=\"v%d\"><div v-html=\"content\"></div></section>", file, version)
 	default:
 		return fmt.Sprintf("---\nlv: L%d\n---\n<main data-l=\"v%d\" :data-f=\"lv\"><div v-html=\"content\"></div></main>", fmv, version)
 	}
@@ -42,6 +47,10 @@ func c15Content(file string, fmv, version int) string {
 func c15Call(t vuego.Template, entry string) (string, string) {
 	var buf bytes.Buffer
 	var err error
+	page := "page.vuego"
+	if i := strings.Index(entry, "@"); i >= 0 {
+		entry, page = entry[:i], entry[i+1:]
+	}
 	func() {
 		defer func() {
 			if e := recover(); e != nil {
@@ -50,13 +59,13 @@ func c15Call(t vuego.Template, entry string) (string, string) {
 		}()
 		switch entry {
 		case "template-render":
-			err = t.Load("page.vuego").Fill(map[string]any{"d": 1}).Render(context.Background(), &buf)
+			err = t.Load(page).Fill(map[string]any{"d": 1}).Render(context.Background(), &buf)
 		case "render-file":
-			err = t.New().Fill(map[string]any{"d": 1}).RenderFile(context.Background(), &buf, "page.vuego")
+			err = t.New().Fill(map[string]any{"d": 1}).RenderFile(context.Background(), &buf, page)
 		case "vue-render":
-			err = vuego.VerifVue(t).Render(&buf, "page.vuego", map[string]any{"d": 1})
+			err = vuego.VerifVue(t).Render(&buf, page, map[string]any{"d": 1})
 		case "vue-fragment":
-			err = vuego.VerifVue(t).RenderFragment(&buf, "page.vuego", map[string]any{"d": 1})
+			err = vuego.VerifVue(t).RenderFragment(&buf, page, map[string]any{"d": 1})
 		}
 	}()
 	if err != nil {
@@ -79,6 +88,8 @@ func c15Run(steps []c15Step) *Case {
 		mt[f] = now
 		mfs[f] = &fstest.MapFile{Data: []byte(c15Content(f, 1, 1)), ModTime: now}
 	}
+	mfs["plain.vuego"] = &fstest.MapFile{Data: []byte("<p>plain page</p>"), ModTime: now}
+	mfs["pages/p.vuego"] = &fstest.MapFile{Data: []byte("---\nlayout: post\n---\n<p>sub page</p>"), ModTime: now}
 	long := vuego.NewFS(mfs)
 	var obs []any
 	var key strings.Builder
